@@ -389,7 +389,12 @@ pub fn footprint_violations(rec: &StepRec, events: &[vmon::store::Event], live_b
             }
             // for delete_branch the victim is no longer in live_after but still "own"
             if owned_by(&p, other, &live) {
-                out.push((p.clone(), format!("{} {verb} storage of live lineage {}", e.kind.name(), other.label())));
+                // What readers of `other` can observe: objects disappearing, and new manifests.
+                // A stray new object nobody references (e.g. the transaction file of a refused
+                // commit) does not change what `other` reads: not judged.
+                if e.kind == Kind::Delete || p.contains("/_versions/") {
+                    out.push((p.clone(), format!("{} {verb} storage of live lineage {}", e.kind.name(), other.label())));
+                }
                 break;
             }
         }
@@ -470,9 +475,20 @@ async fn one_case(seed: u64, case: u64, max_ops: usize, report: &Report) {
                     // index entries of a clone point at the parent's files (base id set): compare names
                     d.indices = src.indices.clone();
                     let names_equal = dst.index_names == src.index_names;
+                    let through_main = matches!(rec.extra, Extra::BranchCreate { cross_handle: true, .. });
+                    if through_main {
+                        report.count("branches_created_from_a_branch_through_the_main_handle", 1);
+                    }
                     if let Some((class, detail)) = crate::c07::content_diff(src, &d) {
+                        // one signature per root cause: through another lineage's handle the diff class
+                        // only depends on what that other lineage happens to hold
+                        let sig = if through_main {
+                            "new-branch-is-not-the-named-parent-version-when-created-through-a-handle-on-another-branch".to_string()
+                        } else {
+                            format!("new-{}-differs-from-parent-version-{class}", if matches!(rec.extra, Extra::Clone { .. }) { "clone" } else { "branch" })
+                        };
                         report.violation(
-                            &format!("new-{}-differs-from-parent-version-{class}", if matches!(rec.extra, Extra::Clone { .. }) { "clone" } else { "branch" }),
+                            &sig,
                             &format!("{} was cut from {}:v{} but differs", new.label(), parent.label(), version),
                             json!({"ctx": ctx(&h), "diff": detail}),
                         );
